@@ -2,6 +2,7 @@ import ScriggoV.Drv.Util
 import ScriggoV.Model.ShowValue
 import ScriggoV.Spec.JSON
 import ScriggoV.Spec.ShowAbs
+import ScriggoV.Spec.DateTime
 /-! Line protocol of property C08.
 
 ```
@@ -13,11 +14,14 @@ C08 tag    <hex>              → ok <namehex> <0|1> | err …    parseTagValue
 C08 stresc <hex>              → ok <hex>                      jsStringEscape
 C08 isnum  <hex>              → ok 0|1                        RFC 8259 number
 ```
-`<val>` in prefix notation: `nil` | `verb <hex|~> <hex|~> <val>` | `time <hex> <hex>` |
+C08 parsedate ecma|rfc3339 <hex> → ok y mo d h mi s ms offsetMin | err invalid   Spec/DateTime.lean
+`<val>` in prefix notation: `nil` | `verb <hex|~> <hex|~> <val>` |
+`time <year> <month> <day> <hour> <min> <sec> <nsec> <utc 0|1> <offsetSeconds>` | `nbytes 0|1 <hex>` |
 `err <hex> <val>` | `bool 0|1` | `int <Kind> <dec>` | `uint <Kind> <dec>` |
 `float <Kind> f|nan|pinf|ninf 0|1 <hex>` | `str <hex>` | `bytes 0|1 <hex>` |
-`slice 0|1 <n> <val>*n` | `array <n> <val>*n` | `map 0|1 <n> (<hex> <val>)*n` |
-`struct <n> (<namehex> <taghex> 0|1 <val>)*n` | `ptr 0|1 0|1 <val>` | `iface <val>` |
+`slice 0|1 <n> <val>*n` | `array <n> <val>*n` | `map 0|1 <n> (<key> <val>)*n` with `<key>` =
+`ks|ke|kstr <hex>` | `kb 0|1` | `ki|ku <Kind> <dec>` | `kf|kc <Kind> <hex>` | `ko <Kind>` |
+`struct <n> (<namehex> <taghex> <exported 0|1> <embedded 0|1> <val>)*n` | `ptr 0|1 0|1 <val>` | `iface <val>` |
 `other <Kind> <hex>`. `<data>`: see `Data.canon`. -/
 namespace ScriggoV.Drv.C08
 open ScriggoV ScriggoV.ShowValue ScriggoV.JSON ScriggoV.Gen.ShowJS
@@ -33,6 +37,18 @@ def fclass : String → Option FClass
   | "f" => some .finite | "nan" => some .nan | "pinf" => some .posInf | "ninf" => some .negInf
   | _ => none
 
+def pKey : List String → Option (GoKey × List String)
+  | "ks" :: h :: r => do pure (.stringer (← fromHex h), r)
+  | "ke" :: h :: r => do pure (.envStringer (← fromHex h), r)
+  | "kb" :: b :: r => do pure (.bool (← bit b), r)
+  | "ki" :: k :: i :: r => do pure (.int (← kindOfName k) (← i.toInt?), r)
+  | "ku" :: k :: n :: r => do pure (.uint (← kindOfName k) (← n.toNat?), r)
+  | "kf" :: k :: h :: r => do pure (.float (← kindOfName k) (← fromHex h), r)
+  | "kstr" :: h :: r => do pure (.str (← fromHex h), r)
+  | "kc" :: k :: h :: r => do pure (.complex (← kindOfName k) (← fromHex h), r)
+  | "ko" :: k :: r => do pure (.other (← kindOfName k), r)
+  | _ => none
+
 mutual
 def pVal : Nat → List String → Option (GoVal × List String)
   | 0, _ => none
@@ -42,8 +58,11 @@ def pVal : Nat → List String → Option (GoVal × List String)
     let json ← optHex b
     let (inner, r') ← pVal f r
     pure (.verb js json inner, r')
-  | _+1, "time" :: a :: b :: r => do
-    pure (.time (← fromHex a) (← fromHex b), r)
+  | _+1, "time" :: y :: mo :: d :: h :: mi :: sc :: ns :: u :: off :: r => do
+    pure (.time { year := ← y.toInt?, month := ← mo.toNat?, day := ← d.toNat?, hour := ← h.toNat?,
+                  min := ← mi.toNat?, sec := ← sc.toNat?, nsec := ← ns.toNat?, utc := ← bit u,
+                  offset := ← off.toInt? }, r)
+  | _+1, "nbytes" :: n :: s :: r => do pure (.nbytes (← bit n) (← fromHex s), r)
   | f+1, "err" :: a :: r => do
     let msg ← fromHex a
     let (inner, r') ← pVal f r
@@ -82,20 +101,19 @@ def pVals : Nat → Nat → List String → Option (List GoVal × List String)
     let (v, r') ← pVal f r
     let (vs, r'') ← pVals f n r'
     pure (v :: vs, r'')
-def pPairs : Nat → Nat → List String → Option (List Bytes × List GoVal × List String)
+def pPairs : Nat → Nat → List String → Option (List GoKey × List GoVal × List String)
   | 0, _, _ => none
   | _+1, 0, r => some ([], [], r)
-  | f+1, n+1, k :: r => do
-    let key ← fromHex k
+  | f+1, n+1, r0 => do
+    let (key, r) ← pKey r0
     let (v, r') ← pVal f r
     let (ks, vs, r'') ← pPairs f n r'
     pure (key :: ks, v :: vs, r'')
-  | _+1, _+1, [] => none
 def pFields : Nat → Nat → List String → Option (List Field × List GoVal × List String)
   | 0, _, _ => none
   | _+1, 0, r => some ([], [], r)
-  | f+1, n+1, nm :: tg :: ex :: r => do
-    let fld : Field := { name := ← fromHex nm, tag := ← fromHex tg, exported := ← bit ex }
+  | f+1, n+1, nm :: tg :: ex :: em :: r => do
+    let fld : Field := { name := ← fromHex nm, tag := ← fromHex tg, exported := ← bit ex, embedded := ← bit em }
     let (v, r') ← pVal f r
     let (fs, vs, r'') ← pFields f n r'
     pure (fld :: fs, v :: vs, r'')
@@ -130,6 +148,15 @@ def handle : List String → Option String
     let s ← fromHex h
     match parseTop m.isJS s with
     | some d => pure ("ok " ++ d.canon)
+    | none => pure "err invalid"
+  | ["parsedate", which, h] => do
+    let s ← fromHex h
+    let r ← (match which with
+      | "ecma" => some (DateTime.parseECMA s)
+      | "rfc3339" => some (DateTime.parseRFC3339 s)
+      | _ => none)
+    match r with
+    | some f => pure s!"ok {f.year} {f.month} {f.day} {f.hour} {f.min} {f.sec} {f.ms} {f.offsetMin}"
     | none => pure "err invalid"
   | ["tag", h] => do
     let s ← fromHex h
